@@ -239,4 +239,19 @@ def Aff.getPointFromX [SqrtOps F] (b : F) (x : F) (greatest : Bool) : Option (Af
     let negy := -y
     some ⟨x, if (SqrtOps.lt y negy) != greatest then y else negy, false⟩
 
+/-- `CurveProjective::random` as a function of the RNG state (`baseRandom` = `$basefield::random`, `nextU32` =
+    `RngCore::next_u32`; both return the new state first): draw an abscissa, draw the sign, take the point with
+    that abscissa if there is one, scale by the cofactor (`cof`), retry on failure or on the identity.
+    `fuel` bounds the number of attempts (`none` = no point found within `fuel`). -/
+def Jac.randomSpec {Rng : Type} [SqrtOps F] (baseRandom : Rng → Rng × F) (nextU32 : Rng → Rng × Nat) (b : F)
+    (cof : Aff F → Jac F) : Nat → Rng → Option (Rng × Jac F)
+  | 0, _ => none
+  | fuel + 1, rng =>
+    let r1 := baseRandom rng
+    let r2 := nextU32 r1.1
+    match PP.Aff.getPointFromX b r1.2 (r2.2 % 2 != 0) with
+    | none => Jac.randomSpec baseRandom nextU32 b cof fuel r2.1
+    | some p =>
+      if (cof p).isZero then Jac.randomSpec baseRandom nextU32 b cof fuel r2.1 else some (r2.1, cof p)
+
 end PP
